@@ -208,7 +208,8 @@ def discharge(rep, run, name, goals, roots, config, fn, bounds_note, timeout_s=6
     replay: callable(model_env) -> (reproduced: bool, detail) for sat models (concrete re-execution)."""
     t0 = time.time()
     rec = dict(harness=name, config=config, function=fn, bounds=bounds_note, goals=[], exec_s=round(run.exec_s, 3),
-               ir_steps=run.it.steps, cuts=dict(run.ctx.stats), assumptions=list(assumptions))
+               ir_steps=run.it.steps, cuts=dict(run.ctx.stats), assumptions=list(assumptions),
+               panic_edges_closed_by_intervals=run.it.panic_edges_closed, panic_edges_to_solver=len(run.it.obligations))
     rep.functions.add(fn); rep.configs.add(config)
     try:
         pr = smt.Problem(run.ctx)
@@ -234,7 +235,10 @@ def discharge(rep, run, name, goals, roots, config, fn, bounds_note, timeout_s=6
                 env = concretize(run, model)
                 g["model"] = {k: env[k] for k in sorted(env)}
                 if replay is not None:
-                    ok, detail = replay(env, gname)
+                    try:
+                        ok, detail = replay(env, gname)
+                    except lsym.PanicReached as e:
+                        ok, detail = True, dict(llsym_concrete="panic reached: " + str(e))
                     g["replay"] = detail
                     if ok: status = "violation"; g["reproduced"] = True
                     else:
